@@ -114,6 +114,7 @@ func runC13(c *Ctx) {
 	r.Rule("R2-cookie-after-persist", "Manager.Save sets the cookie only after saveSession()==nil", 1)
 	r.Rule("R3-handlers", "SignIn / OAuthCallback redirect only after SaveSession()==nil", 2)
 	r.Rule("R4-readiness", "readiness 200 only after VerifyConnection()==nil; Ping error passed up unchanged", 2)
+	r.Rule("R6-reload-under-lock", "a failed or empty reload under the refresh lock ends the request's session (shared with C12.R2/R5): refresh only after a successful reload; errors mean no session and a cleared store session", 3)
 	r.Rule("R5-decrypt-bounds", "every Cipher.Decrypt slices its input only under a length guard for the same bound", 3)
 
 	rule := "R1-error-discipline"
@@ -208,6 +209,11 @@ func runC13(c *Ctx) {
 				}
 			}
 		})
+	}
+
+	if a := c.c12Anchors("R6-reload-under-lock"); a != nil {
+		c.checkRefreshProtocol("R6-reload-under-lock", a)
+		c.checkLoaderClears("R6-reload-under-lock", a)
 	}
 
 	// ---- R2 ---------------------------------------------------------------------------------
